@@ -74,6 +74,16 @@ def run_sequence(sc):
                 f = os.path.join(pyc, "VProbe.py")
                 if os.path.exists(f):
                     open(f, "w").write("this is not python (\n")
+            elif op in ("trunc_funcs", "trunc_lists"):
+                # a writer killed mid-file: keep the lines before the argument lists / before the last lists
+                f = os.path.join(pyc, "VProbe.py")
+                if os.path.exists(f):
+                    lines = open(f).read().splitlines(True)
+                    mark = "f_args = " if op == "trunc_funcs" else "j_names = "
+                    cut = next((k for k, ln in enumerate(lines) if ln.startswith(mark)), None)
+                    if cut is not None:
+                        open(f, "w").write("".join(lines[:cut]))
+                shutil.rmtree(os.path.join(pyc, "__pycache__"), ignore_errors=True)
             elif op == "delete":
                 f = os.path.join(pyc, "VProbe.py")
                 if os.path.exists(f):
